@@ -30,6 +30,7 @@ def generic_network_resource(rng):
         "Addresses": [cidr4(rng) for _ in range(rng.randrange(0, 5))] + [cidr6(rng) for _ in range(rng.randrange(0, 3))],
         "Nested": {"Sources": [{"Cidr": cidr4(rng), "Port": rng.choice([22, "22", 2**31, 10**12])}], "Mixed": [cidr4(rng), "sg-0123", 5, True]},
         "Wide": rng.choice(["0.0.0.0/0", "::/0", "10.0.0.0/1", ["0.0.0.0/0", "128.0.0.0/1"], ["::/0", "::/1"]]),
+        "NestedText": rng.choice(["[" * d + "]" * d for d in (3, 200, 2000, 6000)] + ['{"a":' * d + "1" + "}" * d for d in (2, 1500)] + ["[1, 2", "{]", '"quoted"']),
     }}
 
 
@@ -169,6 +170,8 @@ CORPUS = [
     ({"Resources": {"W": {"Type": "AWS::WAFv2::WebACL", "Properties": {"Rules": [{"Name": "r", "Action": {"Block": {}}}]}}}}, {}),
     # D5: list parameter without value
     ({"Parameters": {"L": {"Type": "CommaDelimitedList"}}, "Resources": {"C": {"Type": "Custom::X", "Properties": {"V": {"Ref": "L"}}}}}, {}),
+    # a string property holding deeply nested JSON text: json.loads gives up (RecursionError), the text is a string
+    ({"Resources": {"S": {"Type": "AWS::SSM::Parameter", "Properties": {"Name": "nested", "Type": "String", "Value": "[" * 5000 + "]" * 5000, "Other": '{"a":' * 3000 + "1" + "}" * 3000}}}}, {}),
     # D28: a single-member object named Condition holding a block (known finding)
     ({"Resources": {"G": {"Type": "Custom::Thing", "Properties": {"Condition": {"StringEquals": {"a": "b"}}}}}}, {}),
 ]
